@@ -882,13 +882,12 @@ def install():
     mon.register_callback(MON_TOOL, mon.events.LINE, _on_line)
     mon.register_callback(MON_TOOL, mon.events.PY_START, _on_start)
     mon.register_callback(MON_TOOL, mon.events.JUMP, _on_jump)
-    # loops of the codec count as well: a decoder that loops for ever inside a reader thread is a reader that spins
+    # the decoder's own loops (message body, grouped AVP) count as well: a decoder that loops for ever inside a reader thread is a
+    # reader that spins.  (The attribute / generator layers only iterate over finite tables; instrumenting them costs a quarter
+    # of the run time of the schedule explorations for nothing.)
     import diameter.message._base as mb
     import diameter.message.avp.avp as ma
-    import diameter.message.avp.generator as mg
-    import diameter.message.commands._attributes as mattr
-    import diameter.message.packer as mpk
-    for m in (nn, pp, aa, hh, mb, ma, mg, mattr, mpk):
+    for m in (nn, pp, aa, hh, mb, ma):
         for co in _all_code_objects(m):
             _jump_codes.add(co)
             mon.set_local_events(MON_TOOL, co, mon.events.JUMP)
